@@ -19,6 +19,9 @@ func (v *Vue) evalAttributes(ctx VueContext, n *html.Node) (map[string]any, erro
 
 	var newAttrs []html.Attribute
 
+	// bound attribute names in source order (output must not depend on map iteration order)
+	var boundOrder []string
+
 	// First pass: collect static attributes and evaluate bound ones
 	for _, a := range n.Attr {
 		key := a.Key
@@ -51,6 +54,9 @@ func (v *Vue) evalAttributes(ctx VueContext, n *html.Node) (map[string]any, erro
 			}
 			// Keep the typed value (also when falsy) so that includes receive it as a prop;
 			// a falsy value still emits no attribute (see second pass)
+			if _, seen := results[boundName]; !seen {
+				boundOrder = append(boundOrder, boundName)
+			}
 			results[boundName] = boundValue
 		default:
 			var err error
@@ -68,7 +74,8 @@ func (v *Vue) evalAttributes(ctx VueContext, n *html.Node) (map[string]any, erro
 	}
 
 	// Second pass: merge bound attributes with static ones
-	for attrName, boundValue := range results {
+	for _, attrName := range boundOrder {
+		boundValue := results[attrName]
 		if !helpers.IsTruthy(boundValue) {
 			continue
 		}
